@@ -165,7 +165,7 @@ def compute(fact_path, jobs=None):
     fr_obs, nfr = lea_rules.frame_balance_obs([r["frames"] for r in results if r.get("frames")])
     for o in fr_obs:
         merged[(o["rule"], o["key"])] = o
-    for o in lea_rules.keyword_length_obs(counts):
+    for o in lea_rules.keyword_length_obs(counts) + lea_rules.replay_agree_obs(counts):
         merged[(o["rule"], o["key"])] = o
     counts.setdefault("R-FRAME-BALANCE", {})["keyword_paths"] = set(range(nfr))
     counts.setdefault("R-WS-ORDER", {})["push_runs"] = set(range(nruns))
